@@ -2145,8 +2145,9 @@ pub fn check(mut file: File) -> Result<Program, Vec<GoError>> {
             } else if f.name == "init" {
                 if !f.params.is_empty() || f.ret.is_some() {
                     ck.err("types", f.line, "func init must have no arguments and no return values");
+                } else {
+                    ck.err("unsupported-init", f.line, "init functions are not modelled");
                 }
-                ck.err("unsupported-init", f.line, "init functions are not modelled");
             } else if f.name != "_" {
                 if !funcs.contains_key(&f.name) {
                     funcs.insert(f.name.clone(), idx);
